@@ -395,6 +395,11 @@ def bytes_slice(p: Path, b: Any, lo: Any, hi: Any, step: Any = None) -> SBytes:
     else:
         n = z3.If(thi >= tlo, thi - tlo, 0)
     s = z3.simplify(tlo)
+    if b.parts and z3.is_int_value(s) and z3.is_int_value(z3.simplify(n)):
+        lo_c, n_c = s.as_long(), z3.simplify(n).as_long()
+        for (o, piece) in b.parts:
+            if o == lo_c and piece.conc_len() == n_c:
+                return piece  # exactly one piece of a concatenation: keeps its identity (and provenance)
     if z3.is_int_value(s) and s.as_long() == 0:
         return SBytes(n, b.at, b.name + "[:]")
     return SBytes(n, lambda i, b=b, tlo=tlo: b.at(tlo + i), b.name + "[:]")
@@ -420,10 +425,17 @@ def bytes_concat(a: Any, b: Any) -> SBytes:
         return b
     if b.conc_len() == 0:
         return a
+    parts = None
+    la, lb = a.conc_len(), b.conc_len()
+    if la is not None and lb is not None:
+        pa = a.parts if a.parts else [(0, a)]
+        pb = b.parts if b.parts else [(0, b)]
+        parts = list(pa) + [(la + o, x) for (o, x) in pb]
     return SBytes(
         z3.simplify(a.n + b.n),
         lambda i, a=a, b=b: z3.If(i < a.n, a.at(i), b.at(i - a.n)),
         f"({a.name}+{b.name})",
+        parts=parts,
     )
 
 
